@@ -54,10 +54,26 @@ FILES = {
                    '<struct name="S"><member name="i" type="I"><dimension size="IK"/></member></struct></xml>\n'},
         'mode': 'isar', 'extra': {}},
 }
+FILES['same_named_includes'] = {'inputs': {
+    'a/main_a.prophy': '#include "defs.prophy"\n#include "common.prophy"\nstruct MA { DA d[KA]; C c; };\n',
+    'b/main_b.prophy': '#include "defs.prophy"\n#include "common.prophy"\nstruct MB { DB d[KB]; C c; };\n'},
+    'mode': None, 'incdirs': ['inc'],
+    'extra': {'a/defs.prophy': 'const KA = 2;\nstruct DA { u8 a; };\n', 'b/defs.prophy': 'const KB = 5;\nstruct DB { u64 b; };\n',
+              'inc/common.prophy': 'struct C { u16 c; };\n'}}
+FILES['odd_names'] = {'inputs': {'radio-link.prophy': 'struct R { u8 a; };\n', 'x.y.prophy': 'struct XY { u16 b<>; };\n',
+                                 '1st file.prophy': 'enum F { F_A = 1 };\n'}, 'mode': None, 'extra': {}}
+FILES['nested_include'] = {'inputs': {'main.prophy': '#include "sub/inner.prophy"\nstruct M { I i; };\n'}, 'mode': None,
+                           'incdirs': ['.'],
+                           'extra': {'sub/inner.prophy': '#include "leaf.prophy"\nstruct I { u8 a[LEAF]; };\n',
+                                     'sub/leaf.prophy': 'const LEAF = 3;\n', 'leaf.prophy': 'const LEAF = 7;\n'}}
+FILES['nested_include_via_I'] = {'inputs': {'main.prophy': '#include "sub/inner.prophy"\nstruct M { I i; };\n'}, 'mode': None,
+                                 'incdirs': ['.', 'other'],
+                                 'extra': {'sub/inner.prophy': '#include "leaf.prophy"\nstruct I { u8 a[LEAF]; };\n',
+                                           'leaf.prophy': 'const LEAF = 7;\n', 'other/leaf.prophy': 'const LEAF = 9;\n'}}
 GENS = ['--python_out', '--cpp_out', '--cpp_full_out', '--prophy_out']
 
 
-def run_case(case, inputs_order, hashseed, cwd_kind):
+def run_case(case, inputs_order, hashseed, cwd_kind, inc_spelling='relative'):
     """One fresh `python -m prophyc` process.  Returns (rc, {output file: sha1}, stderr tail)."""
     spec = FILES[case]
     root = T.fresh_dir('c20')
@@ -68,6 +84,7 @@ def run_case(case, inputs_order, hashseed, cwd_kind):
         for d in (src, out, other):
             os.makedirs(d)
         for fn, text in list(spec['inputs'].items()) + list(spec['extra'].items()):
+            os.makedirs(os.path.dirname(os.path.join(src, fn)), exist_ok=True)
             with open(os.path.join(src, fn), 'w') as f:
                 f.write(text)
         cwd = {'input-dir': src, 'parent': os.path.join(root, 'work'), 'unrelated': other}[cwd_kind]
@@ -79,9 +96,16 @@ def run_case(case, inputs_order, hashseed, cwd_kind):
             argv.append('--' + spec['mode'])
         if 'patch.txt' in spec['extra']:
             argv += ['-p', rel(os.path.join(src, 'patch.txt'))]
+        for inc in spec.get('incdirs', []):
+            p_inc = os.path.normpath(os.path.join(src, inc))
+            if inc_spelling == 'none':
+                continue
+            argv += ['-I', p_inc if inc_spelling == 'absolute' or cwd_kind == 'unrelated' else (os.path.relpath(p_inc, cwd) or '.')]
         for g in GENS:
             argv += [g, rel(out)]
         argv += [rel(os.path.join(src, fn)) for fn in inputs_order]
+        # the nested-include case also checks *what* was resolved: the leaf next to the including file
+
         env = dict(os.environ)
         env['PYTHONHASHSEED'] = str(hashseed)
         env['PYTHONPATH'] = os.path.abspath(T.REPO)
@@ -103,12 +127,16 @@ def configurations(case, tier):
     orders = list(itertools.permutations(names)) if len(names) <= 3 else \
         [tuple(names), tuple(reversed(names)), tuple(names[1:] + names[:1]), tuple(names[2:] + names[:2])]
     alone = [(n,) for n in names]
+    spellings = ['relative', 'absolute'] if spec.get('incdirs') else ['relative']
+    if case == 'nested_include':
+        spellings.append('none')        # the include directory is the main file's own: naming it must change nothing
     for hs in seeds:
         for cwd_kind in ('input-dir', 'parent', 'unrelated'):
             for order in orders + alone:
                 if tier == 'quick' and hs >= 2 and cwd_kind != 'input-dir' and len(order) > 1 and order != orders[0]:
                     continue
-                yield order, hs, cwd_kind
+                for sp in spellings:
+                    yield order, hs, cwd_kind, sp
 
 
 def judge(job):
@@ -123,16 +151,16 @@ def judge(job):
 
     try:
         reference = {}     # output file -> (bytes, configuration that produced it)
-        for order, hs, cwd_kind in configurations(case, tier):
-            rc, outs, err = run_case(case, order, hs, cwd_kind)
+        for order, hs, cwd_kind, sp in configurations(case, tier):
+            rc, outs, err = run_case(case, order, hs, cwd_kind, sp)
             out['runs'] += 1
             out['configs'] += 1
-            cfg = {'inputs': list(order), 'PYTHONHASHSEED': hs, 'cwd': cwd_kind}
+            cfg = {'inputs': list(order), 'PYTHONHASHSEED': hs, 'cwd': cwd_kind, 'include_dirs': sp}
             if rc != 0:
                 viol('run-fails|%s' % case, {'case': case, 'config': cfg, 'detail': 'prophyc exit %s: %s' % (rc, err)})
                 continue
-            expected_stems = set(os.path.splitext(fn)[0] for fn in order)
-            got_stems = set(fn.split('.')[0] for fn in outs)
+            expected_stems = set(os.path.splitext(os.path.basename(fn))[0] for fn in order)
+            got_stems = set(fn[:-3] for fn in outs if fn.endswith('.py'))
             if not expected_stems <= got_stems:
                 viol('missing-output|%s' % case, {'case': case, 'config': cfg, 'detail': 'outputs %s' % sorted(outs)})
             for fn, data in outs.items():
@@ -141,7 +169,7 @@ def judge(job):
                     reference[fn] = (data, cfg)
                 elif reference[fn][0] != data:
                     other = reference[fn][1]
-                    dims = [k for k in ('inputs', 'PYTHONHASHSEED', 'cwd') if other[k] != cfg[k]]
+                    dims = [k for k in ('inputs', 'PYTHONHASHSEED', 'cwd', 'include_dirs') if other[k] != cfg[k]]
                     what = []
                     for k in dims:
                         if k == 'inputs':
@@ -190,12 +218,12 @@ def replay(art):
     T.setup_repo()
     case = art['case']
     cfg = art['config']
-    rc, outs, err = run_case(case, tuple(cfg['inputs']), cfg['PYTHONHASHSEED'], cfg['cwd'])
+    rc, outs, err = run_case(case, tuple(cfg['inputs']), cfg['PYTHONHASHSEED'], cfg['cwd'], cfg.get('include_dirs', 'relative'))
     if rc != 0:
         return 'prophyc fails: %s' % err
     if 'other_config' in art:
         o = art['other_config']
-        rc2, outs2, err2 = run_case(case, tuple(o['inputs']), o['PYTHONHASHSEED'], o['cwd'])
+        rc2, outs2, err2 = run_case(case, tuple(o['inputs']), o['PYTHONHASHSEED'], o['cwd'], o.get('include_dirs', 'relative'))
         fn = art['file']
         if outs.get(fn) != outs2.get(fn):
             import difflib
